@@ -642,7 +642,7 @@ var mul32 = []*instructionType{
 		immediate:    immTypeR,
 		effects: func(i instruction) []expr.Effect {
 			r1, r2 := regLoad(rs1, i, width32), regLoad(rs2, i, width32)
-			val := exprtools.SignedMod(r1, r2, width32)
+			val := signedRem(r1, r2, width32)
 			return []expr.Effect{regStore(val, i, width32)}
 		},
 	}, {
